@@ -5,7 +5,7 @@ from .. import cv, gen, lib, ref
 from ..lib import call
 
 PROP = "C05"
-PLAN = {"quick": (1600, 300), "thorough": (100000, 3600)}
+PLAN = {"quick": (1600, 300), "thorough": (50000, 3600)}
 LARGE = (0.08, 20)  # (share, largest size) of the large class of gen.kv: 17+ control points, degree up to 8
 STEP_BUDGET = 20_000_000  # loop line events per outermost call: ten times the default, for the large class
 RULE = ("case = (curve, nodes to remove, tolerance, regime); regime a: the curve is an exact Boehm refinement (built by the "
